@@ -157,12 +157,18 @@ def gen_case(rng, kind):
     elif kind == "partialset":
         N = rng.randint(1, 3)
         shape = [rng.randint(3, 5) for _ in range(N)]
-        maxo = 3 if min(shape) >= 4 and rng.random() < 0.3 else 2
+        if rng.random() < 0.35:
+            shape = [rng.randint(4, 5) for _ in range(N)]
+        maxo = 3 if min(shape) >= 4 and rng.random() < 0.6 else 2
         r = rng.random()
-        if r < 0.4:
+        if r < 0.35:
             order = rng.randint(1, maxo)
+        elif r < 0.55 and maxo == 3:
+            order = rng.choice([[1, 3], [3, 1], [1, 3], [3], [2, 3]])        # non-contiguous / unsorted selections of orders
         else:
             order = sorted(rng.sample(range(1, maxo + 1), rng.randint(1, maxo)))
+            if rng.random() < 0.2:
+                order = order[::-1]
         c["order"] = order
         fmt = gen_format(rng, N)
         if rng.random() < 0.6:      # formats the routine is written for (TT cores), so that value classes stay reachable
